@@ -55,7 +55,8 @@ impl Span {
 }
 
 pub fn mk_span(x0: f64, mag: f64, back: bool) -> Span {
-    let mag = mag.max(4e-12);
+    // (solve_ivp treats |xend - x0| < 1e-15 as the zero-length run)
+    let mag = mag.max(2e-15);
     let m = x0.abs() + mag;
     let x0 = if mag < 6400.0 * ulp(m) { 0.0 } else { x0 };
     let xend = if back { x0 - mag } else { x0 + mag };
@@ -66,6 +67,11 @@ pub fn mk_span(x0: f64, mag: f64, back: bool) -> Span {
 pub fn span_wide(elo: f64, ehi: f64) -> impl Strategy<Value = Span> {
     (prop_oneof![Just(0.0), fr(-1000.0, 1000.0), fr(-3.0, 3.0)], fr(elo, ehi), any::<bool>())
         .prop_map(|(x0, e, back)| mk_span(x0, 10f64.powf(e), back))
+}
+
+/// spans on a (sub-)picosecond time axis starting at 0: 10^U[-14.5, -8]
+pub fn span_tiny() -> impl Strategy<Value = Span> {
+    (fr(-14.5, -8.0), any::<bool>()).prop_map(|(e, back)| mk_span(0.0, 10f64.powf(e), back))
 }
 
 /// ordinary spans
